@@ -27,6 +27,9 @@ CLAIMS = {
  "C08": (TECH2,
          "Threshold logic decided for all non-negative integers by z3 on the AST translation of both _check_usage methods; the symbol tables compared with CPython's parser as z3 functions over the finite symbol sort; the real find_* helpers and ensure_*/prevent_* classes decided by CrossHair over programs with symbolic identifier / constant leaves and over operator / statement menus (incl. chained comparisons and nesting), against a plain walk of CPython's tree.",
          "program shapes come from a fixed family; queried names/literals from menus (they are formatted / rendered); CrossHair/z3 models", "DESIGN.md §3 C08"),
+ "C10": (TECH,
+         "For 44 pattern x student-shape pairs (quick: 26) with symbolic identifiers and constants in the student tree, CrossHair confirms over all paths that every AstMap the real matcher returns passes an independent witness checker (kinds, primitive content in type and value, direct ordered children up to +/* swap, single identifier per _var_, __expr__ bound to the node at its position) and that absent concrete content yields no match; identifiers at the boundary of the placeholder syntax are shown to be treated as concrete code.",
+         "shape and pattern families are finite; trees with symbolic leaves are built with ast constructors; the witness checker is the oracle", "DESIGN.md §3 C10"),
  "C12": (TECH,
          "With the parser replaced by a stub raising error objects whose position attributes are symbolic within the shapes harvested from CPython on every run, CrossHair confirms over all paths (files <= 3 lines, section offsets <= 2, 3 exception classes) that verify never raises, reports exactly one syntax feedback on CPython's line shifted by the section offset, and stores the parser's tree on acceptance. The parser's own accept/reject decision is CPython's and is not re-verified.",
          "parser stub constrained to harvested shapes; CrossHair/z3 models; harness oracle", "DESIGN.md §3 C12"),
